@@ -345,6 +345,9 @@ def gen_project(r, feat=None):
                          "software_control": 1 << 26})
         for _ in range(r.randint(0, 2)):
             nm = "__" + rand_name(r, names_ctrl, 1, 10)
+            if r.random() < 0.4:
+                # the hidden connection symbols of I/O modules look like module tags after the double underscore
+                nm += r.choice((":I", ":O", ":C", ":S", ":1:C", ":2:I"))
             sysd.append({"name": nm, "scope": None, "kind": "sys", "type": "DINT", "dims": [], "access": 0,
                          "software_control": 1 << 26})
         for _ in range(r.randint(0, 1)):
